@@ -8,6 +8,7 @@ import (
 	"go/token"
 	"go/types"
 	"sort"
+	"strconv"
 	"strings"
 
 	"golang.org/x/tools/go/ssa"
@@ -623,6 +624,23 @@ func (c *cstate) feasible(cond ssa.Value) (bool, bool) {
 			t, f := c.feasible(u.X)
 			return f, t
 		}
+		// membership in a read-only table, for a key the path has pinned to a constant: a
+		// `switch` rewritten as a lookup table is control flow again
+		if lk, ok := cond.(*ssa.Lookup); ok && !lk.CommaOk {
+			if v, present, known := c.tableLookup(lk); known {
+				t := present && v != nil && v.Kind() == constant.Bool && constant.BoolVal(v)
+				if !present || (v != nil && v.Kind() == constant.Bool) {
+					return t, !t
+				}
+			}
+		}
+		if ex, ok := cond.(*ssa.Extract); ok && ex.Index == 1 {
+			if lk, ok := ex.Tuple.(*ssa.Lookup); ok && lk.CommaOk {
+				if _, present, known := c.tableLookup(lk); known {
+					return present, !present
+				}
+			}
+		}
 		return true, true
 	}
 	x, y := b.X, b.Y
@@ -633,7 +651,15 @@ func (c *cstate) feasible(cond ssa.Value) (bool, bool) {
 	if !ok {
 		return true, true
 	}
-	if _, xc := x.(*ssa.Const); xc {
+	if xk, xc := x.(*ssa.Const); xc {
+		// both operands constant (a constant argument of an inlined helper compared in its body)
+		if xk.Value != nil && yc.Value != nil {
+			same := constant.Compare(xk.Value, token.EQL, yc.Value)
+			if b.Op == token.NEQ {
+				return !same, same
+			}
+			return same, !same
+		}
 		return true, true
 	}
 	k := constStr(yc)
@@ -917,6 +943,18 @@ func (pe *pathEnum) walkBlock(fn *ssa.Function, b *ssa.BasicBlock, blocks []*ssa
 				pe.walkPred(fn, b, t, call, neg, pps, blocks, evs, visits, cs)
 				return
 			}
+		}
+		// a comparison of two constants (a constant argument of an inlined helper) decides the
+		// branch without being a condition of the path
+		if truth, known := constCompare(t.Cond); known {
+			s := b.Succs[1]
+			if truth {
+				s = b.Succs[0]
+			}
+			if pe.opts.SkipEdge == nil || !pe.opts.SkipEdge(b, s) {
+				pe.walk(fn, s, blocks, evs, visits, cs, false)
+			}
+			return
 		}
 		canT, canF := true, true
 		if !pe.opts.NoPrune {
@@ -1466,4 +1504,180 @@ func (w *World) tableAlias(g *ssa.Global) *ssa.Global {
 		return target
 	}
 	return nil
+}
+
+// tableLookup evaluates a lookup in a read-only package-level table for a key the constraints
+// pin to a constant.
+func (c *cstate) tableLookup(lk *ssa.Lookup) (val constant.Value, present, known bool) {
+	if theWorld == nil {
+		return nil, false, false
+	}
+	ld, ok := lk.X.(*ssa.UnOp)
+	if !ok || ld.Op != token.MUL {
+		return nil, false, false
+	}
+	g, ok := ld.X.(*ssa.Global)
+	if !ok {
+		return nil, false, false
+	}
+	tbl := theWorld.roTable(g)
+	if tbl == nil {
+		return nil, false, false
+	}
+	k := ""
+	idx := lk.Index
+	for i := 0; i < 3 && k == ""; i++ {
+		if kc, isC := idx.(*ssa.Const); isC {
+			k = constStr(kc)
+			break
+		}
+		if v, has := c.eq[idx]; has {
+			k = v
+			break
+		}
+		switch x := idx.(type) {
+		case *ssa.ChangeType:
+			idx = x.X
+		case *ssa.Convert:
+			idx = x.X
+		default:
+			i = 3
+		}
+	}
+	if k == "" {
+		return nil, false, false
+	}
+	e, has := tbl[k]
+	if !has {
+		return nil, false, true
+	}
+	return e.val, true, true
+}
+
+type roEntry struct{ val constant.Value }
+
+var roTableCache = map[*ssa.Global]map[string]roEntry{}
+
+// roTable: the contents of a package-level map of the module that is initialised by a literal
+// with constant keys and is never written, stored or handed on afterwards (its loads are only
+// looked up, measured or ranged over). nil when g is not such a table.
+func (w *World) roTable(g *ssa.Global) map[string]roEntry {
+	if t, ok := roTableCache[g]; ok {
+		return t
+	}
+	roTableCache[g] = nil
+	if g.Pkg == nil || !strings.HasPrefix(g.Pkg.Pkg.Path(), modulePath) || g.Object() == nil {
+		return nil
+	}
+	if g.Object().Exported() {
+		return nil // importers can write it
+	}
+	if _, isMap := g.Type().(*types.Pointer).Elem().Underlying().(*types.Map); !isMap {
+		return nil
+	}
+	ok := true
+	pkgInit := g.Pkg.Func("init")
+	scan := func(f *ssa.Function) {
+		instrsOf(f, func(in ssa.Instruction) {
+			var ops []*ssa.Value
+			for _, op := range in.Operands(ops) {
+				if *op != ssa.Value(g) {
+					continue
+				}
+				switch x := in.(type) {
+				case *ssa.UnOp:
+					if x.Op != token.MUL || x.Referrers() == nil {
+						ok = false
+						continue
+					}
+					for _, rf := range *x.Referrers() {
+						switch y := rf.(type) {
+						case *ssa.Lookup:
+							if y.X != ssa.Value(x) {
+								ok = false
+							}
+						case *ssa.Range:
+						case *ssa.DebugRef:
+						case *ssa.Call:
+							if b, isB := y.Call.Value.(*ssa.Builtin); !isB || b.Name() != "len" {
+								ok = false
+							}
+						default:
+							ok = false
+						}
+					}
+				case *ssa.Store:
+					if f != pkgInit || x.Addr != ssa.Value(g) {
+						ok = false
+					}
+				default:
+					ok = false
+				}
+			}
+		})
+	}
+	for _, f := range w.SrcFuncs() {
+		if f != pkgInit {
+			scan(f)
+		}
+	}
+	if pkgInit != nil {
+		scan(pkgInit)
+	}
+	if !ok {
+		return nil
+	}
+	ents, _, _, err := w.MapLit(g.Pkg.Pkg.Name(), g.Name())
+	if err != nil {
+		return nil
+	}
+	t := map[string]roEntry{}
+	for _, kv := range ents {
+		if kv.KeyC == nil {
+			return nil
+		}
+		k := ""
+		switch kv.KeyC.Kind() {
+		case constant.String:
+			k = strconv.Quote(constant.StringVal(kv.KeyC))
+		case constant.Int:
+			k = kv.KeyC.ExactString()
+		default:
+			return nil
+		}
+		t[k] = roEntry{kv.ValC}
+	}
+	roTableCache[g] = t
+	return t
+}
+
+// constCompare: cond is (a negation of) a comparison of two constants of one kind.
+func constCompare(cond ssa.Value) (bool, bool) {
+	pol := true
+	for {
+		if u, ok := cond.(*ssa.UnOp); ok && u.Op == token.NOT {
+			cond, pol = u.X, !pol
+			continue
+		}
+		break
+	}
+	bo, ok := cond.(*ssa.BinOp)
+	if !ok {
+		return false, false
+	}
+	a, aok := bo.X.(*ssa.Const)
+	b, bok := bo.Y.(*ssa.Const)
+	if !aok || !bok || a.Value == nil || b.Value == nil || a.Value.Kind() != b.Value.Kind() {
+		return false, false
+	}
+	switch bo.Op {
+	case token.EQL, token.NEQ:
+	case token.LSS, token.LEQ, token.GTR, token.GEQ:
+		if a.Value.Kind() == constant.Bool {
+			return false, false
+		}
+	default:
+		return false, false
+	}
+	return constant.Compare(a.Value, bo.Op, b.Value) == pol, true
 }
